@@ -113,4 +113,17 @@ PROPERTIES = {
             part("C13.prune", shards={"quick": 8, "thorough": 16}, floor=500),
         ],
     },
+    "C12": {
+        "level": "exploration",
+        "level_text": "round-trip monitor: every generated protocol object goes through ToProto, proto.Marshal, proto.Unmarshal, FromProto and is compared on hash, bytes-to-sign, "
+                      "participants and the real verification verdict at another replica; the block-fetch quorum function is exercised in-package with right/wrong/mutated replies",
+        "level_note": "TimeoutMsg.ID and ProposeMsg.ID are not on the wire (the server sets them from the transport identity); they are restored before comparison",
+        "technique": "round-trip differential monitor over generated objects; in-package monitor of the fetch quorum function",
+        "rule": "C12: wire round trip",
+        "anchors": ["internal/proto/hotstuffpb/convert.go", "block.go", "types.go", "network/sender.go"],
+        "parts": [
+            part("C12.roundtrip", shards={"quick": 12, "thorough": 16}, floor=500),
+            part("C12.fetch", target=("test", "network"), shards={"quick": 4, "thorough": 8}, floor=500),
+        ],
+    },
 }
